@@ -1,5 +1,5 @@
 (* Props/C03.v — signatures are trusted only under the issuer's keys from metadata *)
-From PV Require Import Lib.Base Model.Sigver Model.CertSelect Model.IssuerSel Model.CertValidity Proofs.Sigver_lemmas Proofs.CertSelect_lemmas Proofs.IssuerSel_lemmas Proofs.CertValidity_lemmas.
+From PV Require Import Lib.Base Model.Sigver Model.CertSelect Model.IssuerSel Model.CertValidity Proofs.Sigver_lemmas Proofs.CertSelect_lemmas Proofs.IssuerSel_lemmas Proofs.CertValidity_lemmas Model.CertSource Proofs.CertSource_lemmas.
 Open Scope N_scope.
 
 (* Default setting (only_use_keys_in_metadata on): a successful check means the
@@ -384,3 +384,120 @@ Theorem C03_validity_witness :
   vcheck_signature true [(s2l "idp1", [[]])] (Some (s2l "idp1")) false [{| c_key := 9; c_valid := Valid |}] 9 = Ok tt.
 Proof. vm_compute. repeat split. Qed.
 Print Assumptions C03_validity_witness.
+
+(* ======================================================================================
+   WHERE the issuer's descriptor comes from: metadata sources other than local files
+   (Model/CertSource.v): static sources (inline / remote) and the lazy MDQ / MDX source, which
+   asks a server per entity id and caches what it got.  [server] is ANY function from the asked
+   id to an answer (not found | unparsable | descriptors, each with its own entityID).
+   [holds ss d]: one of the sources holds descriptor d; [served_now srv i d]: d is a member of
+   the answer of srv to the question i; [declares_signing d k]: k is a certificate of a signing
+   or use-less key descriptor of d. *)
+
+(* one check, any store, any answer function, default setting: accepted => the signer's key is
+   declared for signing by a descriptor whose entityID IS the issuer, which the store held or the
+   server has just sent - never by whatever else the source holds or was sent *)
+Theorem C03_source_named_like_issuer :
+  forall srv ss issuer embedded signer ss',
+    src_check srv ss issuer true embedded signer = (Ok tt, ss') ->
+    exists d, d_id d = issuer /\ (holds ss d \/ served_now srv issuer d) /\ declares_signing d signer.
+Proof.
+  intros srv ss issuer embedded signer ss' H.
+  destruct (src_check_sound _ _ _ _ _ _ _ H) as [Hd|[Ho _]]; [exact Hd|discriminate].
+Qed.
+Print Assumptions C03_source_named_like_issuer.
+
+(* setting off: the only other way in is the embedded certificate *)
+Theorem C03_source_setting_off :
+  forall srv ss issuer embedded signer ss',
+    src_check srv ss issuer false embedded signer = (Ok tt, ss') ->
+    (exists d, d_id d = issuer /\ (holds ss d \/ served_now srv issuer d) /\ declares_signing d signer) \/ In signer embedded.
+Proof.
+  intros srv ss issuer embedded signer ss' H.
+  destruct (src_check_sound _ _ _ _ _ _ _ H) as [Hd|[_ He]]; [now left|now right].
+Qed.
+Print Assumptions C03_source_setting_off.
+
+(* ... and a descriptor named like the issuer that declares a signing certificate closes that way: the verdict is
+   the one of the default setting *)
+Theorem C03_source_named_descriptor_blocks_fallback :
+  forall srv ss issuer embedded signer d ss' c0 l,
+    store_lookup srv ss issuer = (Found d, ss') ->
+    md_certs [(issuer, d_ent d)] (Some issuer) SIGNING = Some (c0 :: l) ->
+    fst (src_check srv ss issuer false embedded signer) = fst (src_check srv ss issuer true [] signer).
+Proof.
+  intros srv ss issuer embedded signer d ss' c0 l L M. unfold src_check. rewrite L. cbn [fst verdict_of].
+  rewrite !check_signature_spec. unfold candidate_certs. rewrite M. reflexivity.
+Qed.
+Print Assumptions C03_source_named_descriptor_blocks_fallback.
+
+(* a lookup never hands out a descriptor of another name, and everything a store comes to hold it held before or was sent *)
+Theorem C03_source_lookup :
+  forall srv ss asked r ss',
+    store_lookup srv ss asked = (r, ss') ->
+    (forall d, r = Found d -> d_id d = asked /\ holds ss' d) /\
+    (forall x, holds ss' x -> holds ss x \/ served_now srv asked x).
+Proof.
+  intros srv ss asked r ss' H. split.
+  - intros d ->. exact (store_lookup_found _ _ _ _ _ H).
+  - exact (store_lookup_holds _ _ _ _ _ H).
+Qed.
+Print Assumptions C03_source_lookup.
+
+(* histories on one long-lived client (induction over the operation sequence; every step with its own answer
+   function - the server may change its mind, replay, mix up): the n-th check is accepted only under a key declared
+   by a descriptor NAMED like the n-th issuer that the store held at the start or that was sent in one of the
+   answers up to then (first lookup, second lookup, cached or not) *)
+Theorem C03_source_history :
+  forall qs ss n q,
+    nth_error qs n = Some q -> nth_error (run_steps true ss qs) n = Some (Ok tt) ->
+    exists d, d_id d = q_issuer q /\ (holds ss d \/ served_in (firstn (S n) qs) d) /\ declares_signing d (q_signer q).
+Proof.
+  intros qs ss n q Hq Hr. destruct (run_steps_sound true qs ss n q Hq Hr) as [Hd|[Ho _]]; [exact Hd|discriminate].
+Qed.
+Print Assumptions C03_source_history.
+
+Theorem C03_source_history_setting_off :
+  forall qs ss n q,
+    nth_error qs n = Some q -> nth_error (run_steps false ss qs) n = Some (Ok tt) ->
+    (exists d, d_id d = q_issuer q /\ (holds ss d \/ served_in (firstn (S n) qs) d) /\ declares_signing d (q_signer q)) \/
+    In (q_signer q) (q_embedded q).
+Proof.
+  intros qs ss n q Hq Hr. destruct (run_steps_sound false qs ss n q Hq Hr) as [Hd|[_ He]]; [now left|now right].
+Qed.
+Print Assumptions C03_source_history_setting_off.
+
+(* A lazy source that files the answer under the ASKED id without comparing it with the descriptor's own entityID
+   (lazy_lookup_unchecked) does not have the property: the server answers every question with idpA's descriptor
+   (a fallback answer); a signature for issuer idpB made with idpA's key 1 is accepted, although nothing named idpB
+   was ever sent.  The code as it is refuses (MissingKey). *)
+Definition descA : descriptor := {| d_id := idpA; d_ent := [[ {| kd_use := Some SIGNING; kd_certs := [1] |} ]] |}.
+Definition descB : descriptor := {| d_id := idpB; d_ent := [[ {| kd_use := Some SIGNING; kd_certs := [2] |} ]] |}.
+Definition fallback_server : server := fun _ => Served [descA].
+Theorem C03_source_unchecked_refuted :
+  exists srv issuer signer,
+    src_check_unchecked srv [] issuer true [] signer = Ok tt /\
+    (forall d, served_now srv issuer d -> d_id d <> issuer) /\
+    fst (src_check srv [Lazy []] issuer true [] signer) = Err (s2l "MissingKey").
+Proof.
+  exists fallback_server, idpB, 1. split; [reflexivity|]. split; [|reflexivity].
+  intros d (ds & Hs & Hd). injection Hs as <-. destruct Hd as [<-|[]]. vm_compute. discriminate.
+Qed.
+Print Assumptions C03_source_unchecked_refuted.
+
+(* non-vacuity: own answer, another entity's answer, aggregate, first lookup / second lookup, a static source after the lazy one *)
+Example C03_source_witness :
+  fst (src_check (fun _ => Served [descB]) [Lazy []] idpB true [] 2) = Ok tt /\
+  fst (src_check fallback_server [Lazy []] idpB true [1] 1) = Err (s2l "MissingKey") /\
+  fst (src_check fallback_server [Lazy []] idpB false [1] 1) = Ok tt /\
+  fst (src_check (fun _ => Served [descA; descB]) [Lazy []] idpB true [] 1) = Err (s2l "SignatureError") /\
+  fst (src_check (fun _ => Served [descA; descB]) [Lazy []] idpB false [1] 1) = Err (s2l "SignatureError") /\
+  fst (src_check fallback_server [Lazy []; Static [descB]] idpB true [] 2) = Ok tt /\
+  fst (src_check (fun _ => Unparsable) [Lazy []] idpB false [2] 2) = Err (s2l "ParseError") /\
+  run_steps true [Lazy []] [ {| q_srv := fallback_server; q_issuer := idpB; q_embedded := []; q_signer := 1 |};
+                             {| q_srv := fun _ => NotFound; q_issuer := idpA; q_embedded := []; q_signer := 1 |};
+                             {| q_srv := fun _ => Served [descB]; q_issuer := idpB; q_embedded := []; q_signer := 1 |};
+                             {| q_srv := fallback_server; q_issuer := idpB; q_embedded := []; q_signer := 2 |} ]
+    = [Err (s2l "MissingKey"); Ok tt; Err (s2l "SignatureError"); Ok tt].
+Proof. vm_compute. repeat split; reflexivity. Qed.
+Print Assumptions C03_source_witness.
